@@ -49,6 +49,9 @@ type Spec struct {
 	Bounds      map[string]string   `json:"bounds"`
 	Outside     []string            `json:"outside"`
 	Level       string              `json:"level"`
+	// AssertPrefixes: only violations whose assertion id starts with one of these belong to this
+	// property (a harness shared by several properties carries all their oracles).
+	AssertPrefixes []string `json:"assert_prefixes"`
 }
 
 // Unit is one package under test with its harness files.
@@ -62,6 +65,9 @@ type Unit struct {
 	MapOrder    bool              `json:"map_order"`
 	Preemptions int               `json:"preemptions"`
 	EnvFires    int               `json:"env_fires"`
+	// NativeRewrite: textual substitutions applied (for native runs only) to files of the
+	// current /repo tree, e.g. time.NewTicker( -> verifNewTicker( so that the harness controls tickers.
+	NativeRewrite map[string][][2]string `json:"native_rewrite"`
 
 	spec   *Spec
 	params map[string]int
@@ -202,11 +208,14 @@ func buildOverlay(spec *Unit) map[string][]byte {
 	ov[filepath.Join(pdir, "zz_verif_rt.go")] = rtSource(pname)
 	for _, f := range spec.Files {
 		src := filepath.Join(verifDir, "harness", spec.Package, f)
+		if strings.HasPrefix(f, "shared/") {
+			src = filepath.Join(verifDir, "harness", f)
+		}
 		b, err := os.ReadFile(src)
 		if err != nil {
 			panic(err)
 		}
-		ov[filepath.Join(pdir, f)] = rewritePackageClause(b, pname)
+		ov[filepath.Join(pdir, filepath.Base(f))] = rewritePackageClause(b, pname)
 	}
 	return ov
 }
@@ -248,7 +257,7 @@ func defaultNoop(mod string) []string {
 }
 
 func (p *Program) newInterp(spec *Unit, hs *HarnessSpec, tier string, ex *Explorer) *Interp {
-	in := &Interp{prog: p.prog, ex: ex, spec: spec, modPath: p.modPath,
+	in := &Interp{prog: p.prog, ex: ex, spec: spec, modPath: p.modPath, mainPkg: p.pkg,
 		noopPkgs: map[string]bool{}, initPkgs: map[string]bool{}, replace: map[string]*ssa.Function{},
 		methodCache: map[string]*ssa.Function{}}
 	for _, n := range defaultNoop(p.modPath) {
@@ -394,8 +403,8 @@ func runHarness(p *Program, spec *Unit, hs *HarnessSpec, tier string, o *runOpts
 	if o.trace {
 		nw = 1
 	}
-	pool := newPool(ts.MaxPaths)
-	pool.push(workItem{prefix: nil, model: Model{}})
+	pool := newPool(ts.MaxPaths, nw)
+	pool.push(0, workItem{prefix: nil, model: Model{}})
 	start := time.Now()
 	total := newStats()
 	res := &HarnessResult{Func: hs.Func, Stats: total, Params: ts.Params}
